@@ -119,10 +119,39 @@ CHECKS = {
         "note": TRUST + " The demand per text follows the reading in DESIGN §5 (no demand on leading zeros / leading '+').",
         "technique": "round-trip monitor with the string itself as oracle",
     },
+    "C11": {
+        "text": "Exploration with a complete small-scope sweep (all ordered tree pairs up to 3x5 vertices, all data placements) plus random larger "
+                "trees with GC history: the result of merge is walked path by path, and the continuation of reads is judged by the C01 trace "
+                "rules, the reference model and byte read-back.",
+        "design_ref": "§4 C11",
+        "note": TRUST + " New vertex ids are taken from the real graph (path walk), so merge's traversal order is not hard-wired.",
+        "technique": "result monitor by path walk + trace/model monitors on the read continuation",
+    },
+    "C12": {
+        "text": "Exploration: right graphs that fall apart in every generated way; Ok must imply that every present vertex is reachable, "
+                "Err must name the missed vertices.",
+        "design_ref": "§4 C12",
+        "note": TRUST,
+        "technique": "result monitor with independently computed reachability",
+    },
+    "C14": {
+        "text": "Exploration: twin execution script vs. direct API calls from the same AST under random legal renderings, with differential "
+                "continuation; single-fault corruptions must yield Err with exactly the preceding commands applied.",
+        "design_ref": "§4 C14",
+        "note": TRUST + " Malformedness is decided by construction of the corruption, not by the implementation.",
+        "technique": "twin-execution differential monitor (script vs API) + fault injection into the script text",
+    },
+    "C19": {
+        "text": "Exploration: the same history replayed in-process, in a second process and under other (N, capacity) configurations; complete "
+                "observation traces compared by prefix hashes.",
+        "design_ref": "§4 C19",
+        "note": TRUST + " Model-free.",
+        "technique": "trace-equality monitor across repeated executions, processes and configurations",
+    },
 }
 
 _PENDING = "check under construction in this round; not claimed yet"
 NOT_APPLICABLE = [
     {"property_id": p, "reason": _PENDING}
-    for p in ["C07", "C11", "C12", "C14", "C19"]
+    for p in ["C07"]
 ]
